@@ -1140,6 +1140,11 @@ impl PrunePlan {
     fn filter_index_files(&mut self, instant_delete: bool) {
         let mut any_must_modify = false;
         self.stats.index_files = self.index_files.len() as u64;
+        #[cfg(feature = "verif")]
+        let min_index_len = crate::verif::limits::min_index_len().unwrap_or(constants::MIN_INDEX_LEN);
+        #[cfg(not(feature = "verif"))]
+        let min_index_len = constants::MIN_INDEX_LEN;
+
         // filter out only the index files which need processing
         self.index_files.retain(|index| {
             // index must be processed if it has been modified
@@ -1152,7 +1157,7 @@ impl PrunePlan {
             any_must_modify |= must_modify;
 
             // also process index files which are too small (i.e. rebuild them)
-            must_modify || index.len() < constants::MIN_INDEX_LEN
+            must_modify || index.len() < min_index_len
         });
 
         if !any_must_modify && self.index_files.len() == 1 {
